@@ -72,7 +72,7 @@ def replay_history(ctx: Ctx, rec: Dict[str, Any], dtype: torch.dtype, kw: Dict[s
         try:
             with warnings.catch_warnings():
                 warnings.simplefilter("ignore")
-                prim.simulate(n_paths=n, time_horizon=(t - 1) * prim.dt, init_state=init)
+                prim.simulate(n_paths=n, time_horizon=ev["h2"] * prim.dt / 2, init_state=init)
         except RecursionError:
             ctx.violation(f"simulate:{kind}:recursion", f"{kind}: simulate() does not terminate (RecursionError)", detail)
             return
@@ -188,8 +188,12 @@ def generators(ctx: Ctx) -> None:
                             inits += [0.0, (0.0,)]                     # an admissible zero initial state, scalar and tuple
                     for init in inits:
                         # the requested dtype under both global defaults (a request NARROWER than the default must be honoured too)
-                        for gdef, dtype in ((torch.float32, torch.float32), (torch.float32, torch.float64), (torch.float64, torch.float32), (torch.float64, torch.float64)):
+                        for gdef, dtype in ((torch.float32, torch.float32), (torch.float32, torch.float64), (torch.float64, torch.float32), (torch.float64, torch.float64),
+                                            (torch.float32, torch.float16), (torch.float32, torch.bfloat16)):
                             if gdef == torch.float64 and (T not in (2, 21) or init is not None):
+                                continue
+                            half = dtype in (torch.float16, torch.bfloat16)      # half precision: default regime, the dtype contract above all
+                            if half and (T not in (5, 300) or init is not None or kw is not regs[0]):
                                 continue
                             detail = {"generator": name, "n_paths": n, "n_steps": T, "init_state": init, "dtype": str(dtype), "default_dtype": str(gdef), "params": kw}
                             try:
@@ -208,6 +212,9 @@ def generators(ctx: Ctx) -> None:
                                 ctx.violation(f"generator:{name}:recursion", f"{name} does not terminate (RecursionError)", detail)
                                 continue
                             except Exception as e:
+                                if half and isinstance(e, (RuntimeError, NotImplementedError)):
+                                    ctx.skip("half precision: backend does not implement an operation of the generator")
+                                    continue
                                 key = "one-step" if T == 1 else "raises"
                                 ctx.violation(f"generator:{name}:{key}", f"{name}(n_paths={n}, n_steps={T}) raised {type(e).__name__}", {**detail, "error": repr(e)[:200]})
                                 continue
@@ -225,10 +232,10 @@ def generators(ctx: Ctx) -> None:
                                 elif not sign_ok(srs, sg):
                                     ctx.violation(f"generator:{name}:sign", f"{name}: series {j} must be {sg} but has minimum {srs.min().item()}", detail)
                                 if j < len(want) and not (name == "generate_local_volatility_process" and j == 1):
-                                    tol = 1e-6 if dtype == torch.float32 else 1e-12
+                                    tol = 1e-2 if half else (1e-6 if dtype == torch.float32 else 1e-12)
                                     if not bool(((srs[:, 0].double() - want[j]).abs() <= tol * (1 + abs(want[j]))).all()):
                                         ctx.violation(f"generator:{name}:first-column", f"{name}: series {j} starts at {srs[0, 0].item()}, the {'requested' if init is not None else 'default'} initial state is {want[j]}", detail)
-                            if hasattr(out, "volatility") and hasattr(out, "variance"):
+                            if hasattr(out, "volatility") and hasattr(out, "variance") and not half:
                                 tol = 1e-5 if dtype == torch.float32 else 1e-12
                                 if not bool(((out.volatility.double() ** 2 - out.variance.double().clamp(min=0)).abs() <= tol * (1 + out.variance.double().abs())).all()):
                                     ctx.violation(f"generator:{name}:vol-var", f"{name}: volatility^2 differs from variance", detail)
@@ -242,9 +249,10 @@ def check(ctx: Ctx) -> None:
     for rec in res.records:
         regs = regimes(rec["kind"])
         dts = list(DTYPES[ctx.tier])
-        if ctx.tier == "quick" and (rec["kind"] in ("cir", "heston") or k % 8 == 0):
-            dts.append(torch.float16)            # half precision: all variance-process histories and a sample of the others
-                                                 # (backend gaps are allowed outcomes, NaN is not)
+        if ctx.tier == "quick":
+            dts.append(torch.float16)            # half precision for every kind (backend gaps are allowed outcomes, NaN or another dtype is not)
+            if k % 4 == 0:
+                dts.append(torch.bfloat16)
         for dtype in dts:
             kw = regs[k % len(regs)]
             replay_history(ctx, rec, dtype, kw, ctx.seed + k)
